@@ -474,6 +474,7 @@ class Unroller(object):
         writes = {}  # var -> list of (cond, value)
         enabled = []
         newpcs = {}
+        spawned = {}
         for t in range(self.nthreads):
             pcvar = "T{0}.pc".format(t)
             pcval = S[pcvar]
@@ -494,6 +495,10 @@ class Unroller(object):
                     fire = and_(s == t, full)
                     for var, val in upd.items():
                         writes.setdefault(var, []).append((fire, val))
+                        if var.endswith(".pc") and var != pcvar and var.startswith("T"):
+                            # a thread started by this step: its entry point becomes possible
+                            other = int(var[1:-3])
+                            spawned.setdefault(other, set()).update(getattr(system, "spawn_targets", ()))
                     writes.setdefault(pcvar, []).append((fire, nxt))
                     newpcs[t].add(nxt)
             en = or_(*t_enabled) if t_enabled else False
@@ -510,6 +515,8 @@ class Unroller(object):
             for cond, v in reversed(lst):
                 val = ite(cond, v, val)
             new[var] = val
+        for other, targets in spawned.items():
+            newpcs[other] = set(newpcs.get(other, ())) | targets
         self.states.append(new)
         self.pcs.append(newpcs)
         return new
